@@ -93,11 +93,16 @@ fn nested_program(rng: &mut Rng) -> Program {
     let nd = 1 + rng.below(4);
     for _ in 0..nd {
         let a = T::Var(*rng.pick(&fresh));
-        let b = match rng.below(6) {
+        let b = match rng.below(9) {
             0 => T::Var(*rng.pick(&fresh)),
             1 => T::Var(*rng.pick(&hidden)),
             2 => T::list(vec![T::Var(*rng.pick(&hidden)), atoms[rng.below(2)].clone()]),
             3 => T::pair(T::Var(*rng.pick(&fresh)), atoms[rng.below(2)].clone()),
+            // hidden variable as the open tail of an improper list, behind one or two elements
+            4 => T::improper(vec![atoms[rng.below(2)].clone()], T::Var(*rng.pick(&hidden))),
+            5 => T::improper(vec![T::Var(*rng.pick(&fresh)), atoms[rng.below(2)].clone()], T::Var(*rng.pick(&hidden))),
+            // hidden variable deep inside a compound field
+            6 => T::Comp("Named", vec![atoms[rng.below(2)].clone(), T::list(vec![T::Comp("Some", vec![T::Var(*rng.pick(&hidden))])])]),
             _ => atoms[rng.below(atoms.len())].clone(),
         };
         if rng.chance(1, 4) {
